@@ -41,6 +41,8 @@ let parse_line (l : string) : ev option =
 let sig_id loc = if String.length loc > 1 && loc.[0] = 'S' then int_of_string_opt (String.sub loc 1 (String.length loc - 1)) else None
 
 (* ---------------- atomic sites of the source (gen/sites.tsv, written by kx) ---------------- *)
+(* a source line can play several roles (a helper used by several entry functions) and a role can be played by
+   several lines: all the (entry function, role) pairs of a line are kept *)
 let sites : (string, string * int) Hashtbl.t = Hashtbl.create 64
 let load_sites () =
   match Sys.getenv_opt "KV_SITES" with
@@ -52,7 +54,7 @@ let load_sites () =
             match String.split_on_char ' ' (String.trim (input_line ic)) with
             | [ file; line; fn; idx; _op ] ->
               let short = match List.rev (String.split_on_char '.' fn) with x :: _ -> x | [] -> fn in
-              Hashtbl.replace sites (file ^ ":" ^ line) (short, int_of_string idx)
+              Hashtbl.add sites (file ^ ":" ^ line) (short, int_of_string idx)
             | _ -> ()
           done with End_of_file -> close_in ic)
      with Sys_error _ -> ())
@@ -60,21 +62,20 @@ let load_sites () =
 (* which sites may produce the next owner / peer event in a protocol state *)
 let owner_site_ok (s : sigst) (fn, idx) : bool =
   match s.s_o, fn, idx with
-  | OWait, "wait", (0 | 2) -> true
-  | OLow _, "wait", (1 | 3) | OLow _, "wait_timeout", (1 | 3) | OLow _, "poll", 1 | OLow _, "async_blocking_wait", (1 | 3 | 5) -> true
-  | OCasReady, "wait", 4 -> true
-  | OParked, "wait", 5 -> true
+  | OWait, "wait", 0 -> true
+  | OCasReady, "wait", 2 -> true
+  | OParked, "wait", 3 -> true
   | OTimed, "wait_timeout", (0 | 2) -> true
-  | OTimedFinal, "wait_timeout", 4 -> true
+  | OTimedFinal, "wait_timeout", 1 -> true
   | OTimedFalse, "is_terminated", 0 -> true
   | APending, "poll", 0 -> true
-  | ABlocking, "async_blocking_wait", (0 | 2 | 4) -> true
+  | ABlocking, "async_blocking_wait", 0 -> true
   | _ -> false
 let peer_site_ok (s : sigst) (fn, idx) : bool =
   match s.s_c, fn, idx with
-  | CKindRead, "wake", 0 -> true
-  | CWakerRead, "wake", 1 -> s.s_fl = FlSync
-  | CWakerRead, "wake", 2 -> s.s_fl = FlAsync
+  | CKindRead, ("send" | "send_copy" | "recv" | "terminate"), 0 -> true
+  | CWakerRead, ("send" | "send_copy" | "recv" | "terminate"), 2 -> s.s_fl = FlSync
+  | CWakerRead, ("send" | "send_copy" | "recv" | "terminate"), 1 -> s.s_fl = FlAsync
   | _ -> false
 
 (* ---------------- coverage of the protocol model by the accepted traces ---------------- *)
@@ -110,12 +111,12 @@ let check_signals (evs : ev array) : string option * string option =
   (* the role mapping (which source site plays which role of the model) is validated separately: a mismatch does
      not reject the trace - the events themselves, with the orderings actually passed, are what the model judges *)
   let site_check i n (e : ev) (own : bool) : unit =
-    match Hashtbl.find_opt sigs n, Hashtbl.find_opt sites e.src with
+    match Hashtbl.find_opt sigs n, Hashtbl.find_all sites e.src with
     | None, _ -> ()
-    | Some _, None ->
+    | Some _, [] ->
       if !site_err = None then site_err := Some (Printf.sprintf "step=%d thread=%d signal=S%d src=%s: atomic operation at a site unknown to the translated site table" e.step e.tid n e.src)
-    | Some r, Some site ->
-      let ok = if own then owner_site_ok r.st site else peer_site_ok r.st site in
+    | Some r, (site :: _ as all) ->
+      let ok = List.exists (fun st -> if own then owner_site_ok r.st st else peer_site_ok r.st st) all in
       if not ok && not r.dead && !site_err = None then
         site_err := Some (Printf.sprintf "step=%d thread=%d signal=S%d src=%s: %s#%d is not the site that plays this role in the pinned mapping"
                             e.step e.tid n e.src (fst site) (snd site)) in
